@@ -44,6 +44,8 @@ CONSTANTS
     UnOps,          \* operator names used for un cases, e.g. {"neg"}
     WithStubFacts,  \* TRUE: also enumerate sigerr / sret="typed" / typeshed hits
     WithGetattr,    \* TRUE: also enumerate objects that define __getattr__ (outside the property's universe)
+    Fixed,          \* which of the repairs proposed in /verif/proposed/C19-fix-*.diff the tree contains:
+                    \* subset of {"binop_candidates", "class_getitem"}; {} = the code as it is today
     BugNoReflected  \* sensitivity self-test: a model of pyanalyze that forgets the reflected operand
 
 Absent == [st |-> "absent", res |-> "", sigerr |-> FALSE, sret |-> "any", sval |-> ""]
@@ -137,8 +139,13 @@ Res(diag, ret, why) == [diag |-> diag, ret |-> ret, why |-> why]
 \* (:3855-3896): BOTH candidates are always evaluated, whatever the operand types are
 ImplBinary(c) ==
     LET l == ImplDunder(c.m1)
-        r == IF BugNoReflected THEN ImplDunder(Absent) ELSE ImplDunder(c.m2)
-    IN IF l.err
+        r0 == IF BugNoReflected THEN ImplDunder(Absent) ELSE ImplDunder(c.m2)
+        fixed == "binop_candidates" \in Fixed
+        \* C19-fix-2: operands of the same type -> a failing left method is not rescued by the
+        \* reflected one; right type a proper subclass overriding the reflected method -> it wins
+        r == IF fixed /\ c.rel = "same" /\ l.err THEN [r0 EXCEPT !.err = TRUE] ELSE r0
+    IN IF fixed /\ c.rel = "rsub" /\ c.rover /\ ~r.err THEN Res(FALSE, r.ret, "right-first")
+       ELSE IF l.err
        THEN IF r.err THEN Res(TRUE, NonLit(TRUE), "both-errors")       \* :3873 unsupported_operation
             ELSE Res(FALSE, r.ret, "right")                             \* :3880
        ELSE IF r.err THEN Res(FALSE, l.ret, "left")                    \* :3883
@@ -159,7 +166,8 @@ ImplUnary(c) == LET d == ImplDunder(c.m1) IN Res(d.err, d.ret, "unary")
 ImplSubscript(c) ==
     IF c.m1.st # "absent"
     THEN LET d == ImplDunder(c.m1) IN Res(d.err, d.ret, "getitem")            \* :4996
-    ELSE IF c.m2.st = "absent" THEN Res(TRUE, NonLit(TRUE), "not-subscriptable")   \* :5008
+    ELSE IF c.m2.st = "absent" \/ ("class_getitem" \in Fixed /\ ~c.istype)      \* C19-fix-1: instances have no __class_getitem__
+         THEN Res(TRUE, NonLit(TRUE), "not-subscriptable")                           \* :5008
     ELSE LET d == ImplDunder(c.m2) IN Res(d.err, d.ret, "class_getitem")        \* :5015
 
 \* attributes.py:430 _get_attribute_from_known -> :504 _get_attribute_from_mro(obj, on_class=True);
@@ -206,22 +214,25 @@ BinaryReached(c) == c.kind = "bin" \/ (c.kind = "ibin" /\ ImplErrs(c.m3))
 
 \* (a) both operands have the same type: CPython never tries the reflected method, pyanalyze does
 Dev_SameTypeReflected(c) ==
-    BinaryReached(c) /\ c.rel = "same" /\ ImplErrs(c.m1) /\ ~ImplErrs(c.m2)
+    "binop_candidates" \notin Fixed /\ BinaryReached(c) /\ c.rel = "same" /\ ImplErrs(c.m1) /\ ~ImplErrs(c.m2)
 
 \* (b) the right operand's type is a proper subclass overriding the reflected method: CPython
 \*     tries it FIRST, pyanalyze prefers the left result
 Dev_SubclassFirst(c) ==
-    BinaryReached(c) /\ c.rel = "rsub" /\ c.rover /\ ~Declines(c.m2) /\ ~ImplErrs(c.m1)
+    "binop_candidates" \notin Fixed /\ BinaryReached(c) /\ c.rel = "rsub" /\ c.rover /\ ~Declines(c.m2) /\ ~ImplErrs(c.m1)
 
 \* (b') the signature check rejects the left call (e.g. IntFlag.__or__, whose runtime function is
 \*     enum.Flag.__or__(self, other: Self)): pyanalyze treats that like NotImplemented and silently
 \*     uses the reflected method, although CPython lets the left method decide
 Dev_SigErrorFallsThrough(c) ==
-    BinaryReached(c) /\ c.m1.sigerr /\ ~Declines(c.m1) /\ ~ImplErrs(c.m2)
+    /\ BinaryReached(c)
+    /\ LET rfirst == c.rel = "rsub" /\ c.rover /\ ~Declines(c.m2)     \* CPython lets the reflected method decide
+       IN \/ rfirst /\ c.m2.sigerr /\ ~ImplErrs(c.m1)
+          \/ ~rfirst /\ c.m1.sigerr /\ ~Declines(c.m1) /\ ~ImplErrs(c.m2)
 
 \* (c) x[i] on an INSTANCE whose class defines __class_getitem__ (and no __getitem__)
 Dev_ClassGetitemOnInstance(c) ==
-    c.kind = "sub" /\ ~c.istype /\ c.m1.st = "absent" /\ c.m2.st # "absent"
+    "class_getitem" \notin Fixed /\ c.kind = "sub" /\ ~c.istype /\ c.m1.st = "absent" /\ c.m2.st # "absent"
 
 \* (d) a candidate method passes the signature check, is really called and raises TypeError:
 \*     the exception is swallowed (name_check_visitor.py:5591) and nothing is reported
@@ -232,11 +243,6 @@ ImplConsulted(c) ==
       [] c.kind = "sub"  -> IF c.m1.st # "absent" THEN {c.m1} ELSE {c.m2}
       [] OTHER -> {}
 Dev_TypeErrorSwallowed(c) == \E m \in ImplConsulted(c) : m.st = "te" /\ ~m.sigerr
-
-\* (e) default of the `ignored_end_of_reference` option: NAME.attr with attr in that list is
-\*     never reported, although the object certainly lacks it
-Dev_IgnoredEndOfReference(c) ==
-    c.kind = "attr" /\ c.a.rt = "AttributeError" /\ ~c.a.hasgetattr /\ ImplAttr(c).why = "fallback-ignored"
 
 \* (f) attribute of a CLASS OBJECT decided from the typeshed stub of the class (which describes
 \*     instances) without consulting the class object: absent at runtime ...
@@ -257,7 +263,6 @@ DevKey(c) ==
     ELSE IF Dev_SigErrorFallsThrough(c) THEN "signature-error-falls-through-to-reflected"
     ELSE IF Dev_ClassGetitemOnInstance(c) THEN "class-getitem-on-instance"
     ELSE IF Dev_TypeErrorSwallowed(c) THEN "dunder-call-typeerror-swallowed"
-    ELSE IF Dev_IgnoredEndOfReference(c) THEN "ignored-end-of-reference-default"
     ELSE IF Dev_StubAttrAbsentAtRuntime(c) THEN "stub-attribute-absent-on-class-object"
     ELSE IF Dev_StubLiteralOnClass(c) THEN "stub-literal-for-class-attribute"
     ELSE IF Dev_DescriptorRaisesOnClass(c) THEN "class-dict-descriptor-raises-attributeerror"
@@ -370,9 +375,14 @@ Next == ChooseKind \/ ChooseM1 \/ ChooseM2 \/ ChooseM3 \/ ChooseShape \/ ChooseA
 (***************************************************************************)
 (* Invariants                                                              *)
 (***************************************************************************)
-\* objects that define __getattr__ have no statically known attribute set: pyanalyze deliberately stays
-\* silent (name_check_visitor.py:5343) and the property makes no claim about them
-InUniverse(c) == ~c.a.hasgetattr
+\* Domain of the property.  Excluded (no verdict, the observation is "ok"):
+\*  - objects that define __getattr__: no statically known attribute set, pyanalyze deliberately stays
+\*    silent (name_check_visitor.py:5343);
+\*  - NAME.attr (a dotted-name path) with attr in the default of the documented option
+\*    `ignored_end_of_reference` (count, called, call_count, ...): a missing attribute is by
+\*    configuration never reported (name_check_visitor.py:496, :5344-5350).  ImplAttr still models
+\*    the arm ("fallback-ignored"), so the model stays bound to the code (drift is still checked).
+InUniverse(c) == ~c.a.hasgetattr /\ ~(c.kind = "attr" /\ c.a.haspath /\ c.a.ignored)
 
 DiagnosedIffRaises == (stage = "done" /\ InUniverse(case)) => (DiagOK(case) \/ DevKey(case) # "none")
 LiteralEqualsResult == (stage = "done" /\ InUniverse(case)) => (LitOK(case) \/ DevKey(case) # "none")
